@@ -70,7 +70,12 @@ void harness(void)
     VP_ASSERT(sc.ndomains == nd0, "without LOCALDOMAIN the search list is untouched");
     VP_WITNESS("no LOCALDOMAIN");
   } else {
-    if (PRE == 1) VP_ASSERT(sc.ndomains >= 1, "a LOCALDOMAIN value never erases an established search list");
+#ifdef KFONLY_c15_localdomain_erases_search
+    VP_ASSUME(PRE == 1 && st != ARES_SUCCESS);
+#endif
+#ifndef KF_c15_localdomain_erases_search
+    if (PRE == 1) VP_ASSERT(sc.ndomains >= 1, "FINDING c15_localdomain_erases_search: a LOCALDOMAIN value never erases an established search list");
+#endif
     if (st == ARES_SUCCESS && sc.ndomains == 1 && nd0 == 0) VP_WITNESS("domain taken from LOCALDOMAIN");
     if (st == ARES_ENOMEM) VP_WITNESS("value refused");
   }
